@@ -42,6 +42,15 @@ CLAIMED.update({
              note=FIELD_NOTE, technique='Coq proof by tracked execution of regenerated initialiser op lists; differential tie + reference search',
              ref='DESIGN.md section 4 C04'),
 })
+CLAIMED.update({
+ 'C17': dict(text='Theorem C17_views: for every group of coq/Views.v (AVTP common header over all stream formats, ACF common header over all ACF '
+                  'messages incl. VSS/VSS-brief, stream header over TSCF/AAF/PCM/CVF/RVF, AAF vs AAF-PCM) and any two member views, every access '
+                  'path of either view (by-identifier and dedicated accessor, records regenerated each run) returns the same value on every buffer, '
+                  'writes leave the same bits, and a value written through one view is read back through the other; both byte orders.',
+             note=FIELD_NOTE + ' The grouping itself (which fields are shared) is hand-written in Views.v.',
+             technique='Coq proof (corollary of the C01/C02 field theorems + computation over Spec.v/Views.v); cross-view differential runs',
+             ref='DESIGN.md section 4 C17'),
+})
 ALL = ['C%02d' % i for i in range(1, 21)]
 def main():
     checks = []
